@@ -137,6 +137,11 @@ def r2(ctx: Ctx) -> None:
                         tm = a[2][0] if a[2] else dict(a[3]).get("time", NONE)
                         series_ok = key(a[1]).endswith("get_market_price") or (len(a[2]) > 1 and key(a[2][1]).endswith("._market_prices"))
                         okp = tm == NONE and series_ok
+            from ..kit import unknown_series
+
+            if okf and not okp and unknown_series(pr):
+                ctx.unrec(f, f.node, f"{OMS}: overridden fields", "the market price is read from something that stands in for the recorded series (not the series itself)", key(pr)[:120])
+                continue
             ctx.check(okf and okp, f, f.node, f"{OMS}: overridden fields", "is_buy = rate > 0; kind = LIMIT_ORDER; volume = order_volume; ttl = order_time_length; price = <order's market>.get_market_price() * (1 + rate)",
                       ", ".join(f"{k}={key(v)[:70]}" for k, v in sorted(got.items())))
             # once-flag: tested false before, set true on this path, nothing else on self
